@@ -61,6 +61,10 @@ type Result struct {
 	Transitions int    // operations executed on the implementation
 	Traces      int    // model predictions compared with the implementation
 	Note        string // free text for samples
+	// Sig, if set, is the stable class of the violation; replays are compared by Sig instead of
+	// by the full message (which may quote outputs that legitimately vary, e.g. when the
+	// violation is a non-deterministic output).
+	Sig string
 }
 
 // Check is one property's explorer.
@@ -70,6 +74,10 @@ type Check struct {
 	// Companion names a check that only exists in the map-order-controlled build of jdmc
 	// (JDMC_ORD_BIN); its shards are run after the main ones and merged into this evidence.
 	Companion string
+	// Unstable marks checks whose violations may be genuinely non-deterministic (C15): a
+	// violation is confirmed if one of several replays reproduces its class; one that never
+	// reproduces is recorded as unconfirmed and raises no alarm.
+	Unstable bool
 	Rule     string // how cases are enumerated / what makes one non-trivial
 	Bounds   func(tier string) map[string]interface{}
 	Enum     func(tier string, e *Emitter)
@@ -161,6 +169,7 @@ type Sample struct {
 type Violation struct {
 	Case Case   `json:"case"`
 	Msg  string `json:"msg"`
+	Sig  string `json:"sig,omitempty"`
 }
 
 const maxViolationsPerWorker = 400
@@ -228,7 +237,7 @@ func RunWorker(ck *Check, tier string, shard, n int, seed int64, deadline time.T
 		out.Hist[res.Bucket]++
 		out.LegHist[c.Leg]++
 		if res.Violation != "" {
-			v := Violation{Case: *c, Msg: res.Violation}
+			v := Violation{Case: *c, Msg: res.Violation, Sig: res.Sig}
 			known := false
 			for j := range findings {
 				if findings[j].Matches(ck.ID, &v) {
@@ -559,6 +568,7 @@ func Coordinate(self string, ck *Check, tier string, seed int64, verifDir string
 	}
 	// Confirm and report unknown violations (smallest first, at most 10 replay files).
 	reported := 0
+	unconfirmed := 0
 	replayDir := filepath.Join(verifDir, "replays", ck.ID)
 	if d := os.Getenv("VERIF_REPLAY_DIR"); d != "" {
 		replayDir = filepath.Join(d, ck.ID)
@@ -570,18 +580,45 @@ func Coordinate(self string, ck *Check, tier string, seed int64, verifDir string
 		c := v.Case
 		var r1, r2 Result
 		isComp := companionViolation[c.Hash()] && strings.HasPrefix(c.Kind, "c15ord")
-		if isComp {
+		special := strings.HasPrefix(v.Msg, "hang:") || strings.HasPrefix(v.Msg, "worker process died")
+		sigOf := func(r Result) string {
+			if r.Sig != "" {
+				return r.Sig
+			}
+			return r.Violation
+		}
+		switch {
+		case special:
+			// cannot be re-executed in-process safely; report as is
+		case isComp:
 			r1.Violation = externalReplay(ordBin, ck.ID, ck.Companion, &v, work)
 			r2.Violation = externalReplay(ordBin, ck.ID, ck.Companion, &v, work)
-		} else {
+			if r1.Violation == "" || r1.Violation != r2.Violation {
+				engineErr += fmt.Sprintf("violation did not reproduce deterministically: %s\n  first=%q\n  replay1=%q\n  replay2=%q\n", mustJSON(v.Case), v.Msg, r1.Violation, r2.Violation)
+				continue
+			}
+		case ck.Unstable:
+			want := v.Sig
+			if want == "" {
+				want = v.Msg
+			}
+			ok := false
+			for try := 0; try < 6 && !ok; try++ {
+				r := safeRun(ck, &c)
+				ok = r.Violation != "" && sigOf(r) == want
+			}
+			if !ok {
+				unconfirmed++
+				fmt.Fprintf(os.Stderr, "note: a violating execution did not reproduce in 6 replays and is not reported: %s\n  %s\n", mustJSON(v.Case), v.Msg)
+				continue
+			}
+		default:
 			r1 = safeRun(ck, &c)
 			r2 = safeRun(ck, &c)
-		}
-		if strings.HasPrefix(v.Msg, "hang:") || strings.HasPrefix(v.Msg, "worker process died") {
-			// cannot be re-executed in-process safely; report as is
-		} else if r1.Violation == "" || r1.Violation != r2.Violation {
-			engineErr += fmt.Sprintf("violation did not reproduce deterministically: %s\n  first=%q\n  replay1=%q\n  replay2=%q\n", mustJSON(v.Case), v.Msg, r1.Violation, r2.Violation)
-			continue
+			if r1.Violation == "" || sigOf(r1) != sigOf(r2) {
+				engineErr += fmt.Sprintf("violation did not reproduce deterministically: %s\n  first=%q\n  replay1=%q\n  replay2=%q\n", mustJSON(v.Case), v.Msg, r1.Violation, r2.Violation)
+				continue
+			}
 		}
 		os.MkdirAll(replayDir, 0755)
 		rf := ReplayFile{Property: ck.ID, Case: v.Case, Msg: v.Msg}
@@ -659,6 +696,7 @@ func Coordinate(self string, ck *Check, tier string, seed int64, verifDir string
 			"workers":                       nworkers,
 			"engine_error":                  engineErr,
 			"map_order_control":             mapOrderControl,
+			"unconfirmed_violations":        unconfirmed,
 			"map_order_note":                companionNote,
 			"states_meaning":                "distinct initial states (concrete cases: documents, option set, diff/patch program, target, history) explored; every one is executed on the real code",
 			"transitions_meaning":           "library / CLI operations executed on the implementation across all cases",
